@@ -149,7 +149,7 @@ func c08Run(c *engine.Ctx, cs c08Case) (string, string, string) {
 			w.Do(drv.Req{Method: "PUT", Path: "/aaa/" + key, Query: drv.Q("uploadId", uploadID, "partNumber", "1"), Body: old})
 		}
 	}
-	before := w.Snapshot(drv.SnapOpts{Uploads: true, NoRaw: true})
+	before := c08Snap(w)
 
 	// ---- build the request ----
 	var reasons []string // applicable rejection codes
@@ -274,7 +274,7 @@ func c08Run(c *engine.Ctx, cs c08Case) (string, string, string) {
 	_ = metaMust
 
 	r := w.Do(req)
-	after := w.Snapshot(drv.SnapOpts{Uploads: true, NoRaw: true})
+	after := c08Snap(w)
 	c.Add(0, 0, 0, 1)
 	if r.Panic != "" {
 		return reason, "panic@" + drv.PanicFrame(r.Panic), firstLine(r.Panic)
@@ -323,3 +323,10 @@ func c08Run(c *engine.Ctx, cs c08Case) (string, string, string) {
 }
 
 func init() { Registry["C08"] = runC08 }
+
+// c08Snap: API snapshot + delimiter listing + raw storage (left-over directories of a rejected upload count).
+func c08Snap(w *drv.World) string {
+	s := w.Snapshot(drv.SnapOpts{Uploads: true})
+	lp := w.List("aaa", "delimiter=%2F")
+	return s + fmt.Sprintf("DELIM %d %v %v\n", lp.Status, lp.Prefixes, len(lp.Entries))
+}
